@@ -100,6 +100,27 @@ def rule_r1(chk, prog, effects):
                                                  'O_TRUNC')):
                             good_with = w
         okw = good_with is not None
+        # ... and it is truncated (or created exclusively) when opened: a
+        # leftover temporary of a killed run with the same pid is not kept
+        # as a prefix of what is published
+        if good_with is not None:
+            for it in good_with.items:
+                c = it.context_expr
+                if isinstance(c, ast.Call) and call_name(c) in (
+                        'open', 'io.open') and c.args and unparse(
+                            c.args[0]) == unparse(src):
+                    mode = c.args[1] if len(c.args) > 1 else kw(c, 'mode')
+                    mt = mode.value if isinstance(mode, ast.Constant) \
+                        else None
+                    chk.check('C06.R1', where, f'temporary opened with mode '
+                              f'{mt!r}', isinstance(mt, str) and (
+                                  'w' in mt or 'x' in mt) and 'a' not in mt,
+                              f'the temporary is opened with mode {mt!r}: '
+                              'it is not truncated, so a partial temporary '
+                              'left behind by a killed run with the same '
+                              'process id becomes the beginning of the '
+                              'published output file (a mixed file)',
+                              loc=m.loc(c), nontrivial=True)
         inside = False
         if okw:
             p = getattr(rep, '_parent', None)
